@@ -207,7 +207,7 @@ func resizeSync(s *vxdrive.Session, proto string, im vaxis.Image, w, h int, dege
 			return ""
 		}
 		if !awaitRedraw(s) {
-			return "harness: the encoder did not post its Redraw event"
+			return "Resize did not post the Redraw event its documentation promises on completion (the image was not re-encoded for this box and cell geometry)"
 		}
 	}
 	return ""
